@@ -128,7 +128,12 @@ func (c *Ctx) Max(k string, v int64) {
 	c.mu.Unlock()
 }
 
-func (c *Ctx) Distinct(parts ...interface{}) { c.Keys.Add(parts...) }
+// Distinct records the key of one evaluated (sub)case; the number of calls is reported too, so that
+// "evaluations" never undercounts what "distinct_nontrivial" was drawn from.
+func (c *Ctx) Distinct(parts ...interface{}) {
+	c.Keys.Add(parts...)
+	c.Count("oracle_evaluations_keyed", 1)
+}
 
 func (c *Ctx) Sample(v interface{}) {
 	c.mu.Lock()
